@@ -108,8 +108,10 @@ def generate(rng, tier):
         m = i % 10
         if m < 4:
             cases.append(sc.gen_ring(rng, sufficient=True))
-        elif m < 7:
+        elif m < 6:
             cases.append(sc.gen_ring(rng, sufficient=False))
+        elif m < 7:
+            cases.append(sc.gen_ring_mixed(rng))
         elif m < 8:
             cases.append([undelayed_ring, connect_ring, sc.gen_relay2_ring, sc.gen_pull_ring, sc.gen_ring_staggered, sc.gen_ring_mixed][(i // 10) % 6](rng))
         else:
